@@ -4,10 +4,12 @@
      /repo/global_heap_write.go         globalHeapWriter: WriteToGlobalHeap, createNewHeap, addObject,
                                         hasSpace, alignTo8, encodeHeapCollection, flushCurrentHeap/Flush,
                                         HeapID.Encode
-     /repo/internal/core/globalheap.go  ReadGlobalHeapCollection, GetObject, ParseGlobalHeapReference
+     /repo/internal/core/globalheap.go  ReadGlobalHeapCollection (with the bounds check of /repo 4200bd8),
+                                        GetObject, ParseGlobalHeapReference
      /repo/internal/core/messages_write.go  encodeDatatypeNumeric / encodeDatatypeString /
-                                        encodeDatatypeVLen (REPAIRED layout, notes/fixes/vlen-datatype-header.patch;
-                                        the layout of the pinned tree is kept as enc_vlen_old)
+                                        encodeDatatypeVLen (repaired layout: /repo 71914eb =
+                                        notes/fixes/vlen-datatype-header.patch; the layout of the
+                                        pinned tree is kept as enc_vlen_old, finding D10)
      /repo/dataset_write.go             vlenTypeHandler.EncodeDatatypeMessage, datatypeRegistry rows of the
                                         vlen base types
      /repo/internal/core/datatype.go    ParseDatatypeMessage, IsVariableString
